@@ -269,10 +269,10 @@ def add_noise(b, rng, ints, horizon):
         b.faults += 1
 
 
-def gen_c03(rng, seed):
+def gen_c03(rng, seed, tier='quick'):
     cfg = base_config(rng)
     b = Builder(rng, cfg)
-    ints = add_consumer_side(b, rng, cfg['frontend'], rng.randint(1, 6), focus='c03')
+    ints = add_consumer_side(b, rng, cfg['frontend'], rng.randint(1, 6 if tier == 'quick' else 10), focus='c03')
     horizon = max(r['te'] + r['life'] * 1000 for r in ints)
     add_noise(b, rng, ints, horizon)
     return b.scenario(seed, 'C03')
@@ -382,10 +382,22 @@ def add_producer_side(b, rng, fe, focus='c04', tokens=False, lp_prob=0.1, transp
     return app_validator, long_tail
 
 
-def gen_c04(rng, seed):
+def gen_c04(rng, seed, tier='quick'):
     cfg = base_config(rng)
     b = Builder(rng, cfg)
+    if cfg['frontend'] == 'v1' and rng.random() < 0.3:
+        cfg['dispatcher'] = True
     appv, long_tail = add_producer_side(b, rng, cfg['frontend'], focus='c04', tokens=rng.random() < 0.3)
+    if cfg.get('dispatcher'):
+        appv = None
+        for o in b.ops:
+            if o['op'] == 'attach':
+                o['validator'] = None
+        for spec in b.packets.values():
+            if spec.get('k') == 'interest':
+                spec.pop('sig', None)
+                spec.pop('app_param', None)
+                spec.pop('bad_digest', None)
     horizon = max([o['at'] for o in b.ops] + [2000])
     if rng.random() < 0.1:
         b.op(rng.randint(1000, horizon), 'wall_jump', delta_ms=rng.choice([-5000, -50, 50, 5000]))
@@ -396,14 +408,14 @@ def gen_c04(rng, seed):
     return b.scenario(seed, 'C04', **extra)
 
 
-def gen_c05(rng, seed):
+def gen_c05(rng, seed, tier='quick'):
     cfg = base_config(rng)
     b = Builder(rng, cfg)
     fe = cfg['frontend']
     extra = {}
     side = rng.random()
     if side < 0.6:
-        add_consumer_side(b, rng, fe, rng.randint(1, 5), focus='c05')
+        add_consumer_side(b, rng, fe, rng.randint(1, 5 if tier == 'quick' else 9), focus='c05')
     if side >= 0.4:
         appv, _lt = add_producer_side(b, rng, fe, focus='c05')
         if appv is not None:
@@ -444,7 +456,7 @@ RAW_JUNK = [
 ]
 
 
-def gen_c06(rng, seed):
+def gen_c06(rng, seed, tier='quick'):
     cfg = base_config(rng, faces=(('direct', 45), ('tcp', 20), ('unix', 5), ('udp', 30)))
     cfg['debug_log'] = rng.random() < 0.4
     b = Builder(rng, cfg)
@@ -508,7 +520,7 @@ def gen_c06(rng, seed):
                            'sig': 'digest'}))
     # 3. malformed input
     t = 6000
-    for _ in range(rng.randint(1, 10)):
+    for _ in range(rng.randint(1, 10 if tier == 'quick' else 25)):
         t += rng.choice([0, 1, 1000, 2000])
         x = rng.random()
         if x < 0.55:
@@ -550,7 +562,7 @@ def gen_c06(rng, seed):
 # link-layer transparency (C10)
 
 
-def gen_c10(rng, seed):
+def gen_c10(rng, seed, tier='quick'):
     cfg = base_config(rng)
     cfg['lp_oracle'] = 'ref'
     b = Builder(rng, cfg)
